@@ -157,7 +157,9 @@ func (c *DeviceCodeTokenEndpointHandler) HandleTokenEndpointRequest(ctx context.
 	var ar fosite.DeviceRequester
 	if ar, err = c.session(ctx, requester, signature); err != nil {
 		if ar != nil && (errors.Is(err, fosite.ErrInvalidatedAuthorizeCode) || errors.Is(err, fosite.ErrInvalidatedDeviceCode)) {
-			return c.revokeTokens(ctx, requester.GetID())
+			// The tokens issued from the device code carry the ID of the stored device request, not the
+			// (random) ID of this replayed token request.
+			return c.revokeTokens(ctx, ar.GetID())
 		}
 
 		return err
